@@ -208,7 +208,7 @@ def run(tier, seed):
                 "distinct (from, to, spelling, spelling) judged with a non-integer x, plus distinct refusal queries")
     run.assumptions = ["textbook maps: K=C+273.15; K=(F+459.67)*5/9; K=Re*5/4+273.15; K=(Ro-7.5)*40/21+273.15; "
                        "K=373.15-De*2/3; K=N*100/33+273.15"]
-    n = 6000 if tier == "quick" else 600000
+    n = 6000 if tier == "quick" else 3000000
     per = nproc()
     for res in shard_map(work, [None] * per, (seed, n // per + 1)):
         run.merge(res)
